@@ -6,7 +6,8 @@ import re
 
 KINDS = ['Eager', 'Lazy', 'NoCV']
 COLS = ['a', 'u', 'n']
-OPCOLS = COLS + ['zz']      # keyword 3 of a set() is one the class does not know
+DBCOLS = ['a_c', 'u_c', 'n_c']      # the columns' database names differ from the attribute names (code that confuses the two shows)
+OPCOLS = COLS + ['zz', 'px']      # keyword 3 of a set() is one the class does not know, 4 a property whose setter refuses 'zz'
 TABLES = ['vorm_eager', 'vorm_lazy', 'vorm_no_c_v']
 
 COQ_HEADER = '''From Coq Require Import List ZArith Bool. Import ListNotations. Open Scope Z_scope.
@@ -36,26 +37,38 @@ def classes():
         from sqlobject import SQLObject, IntCol, MultipleJoin, DatabaseIndex
 
         class VOrmEager(SQLObject):
-            a = IntCol(default=None)
-            u = IntCol(alternateID=True)
-            n = IntCol(notNone=True, default=0)
+            a = IntCol(default=None, dbName='a_c')
+            u = IntCol(alternateID=True, dbName='u_c')
+            n = IntCol(notNone=True, default=0, dbName='n_c')
             uIdx = DatabaseIndex('u', unique=True)      # unique-index lookups (C04): VOrmEager.uIdx.get(value)
 
         class VOrmLazy(SQLObject):
             class sqlmeta:
                 lazyUpdate = True
-            a = IntCol(default=None)
-            u = IntCol(alternateID=True)
-            n = IntCol(notNone=True, default=0)
+            a = IntCol(default=None, dbName='a_c')
+            u = IntCol(alternateID=True, dbName='u_c')
+            n = IntCol(notNone=True, default=0, dbName='n_c')
             uIdx = DatabaseIndex('u', unique=True)
 
         class VOrmNoCV(SQLObject):
             class sqlmeta:
                 cacheValues = False
-            a = IntCol(default=None)
-            u = IntCol(alternateID=True)
-            n = IntCol(notNone=True, default=0)
+            a = IntCol(default=None, dbName='a_c')
+            u = IntCol(alternateID=True, dbName='u_c')
+            n = IntCol(notNone=True, default=0, dbName='n_c')
             uIdx = DatabaseIndex('u', unique=True)
+
+        def _set_px(self, v):
+            # a non-column keyword of set(): a property of the class whose setter validates
+            if isinstance(v, str):
+                raise ValueError('px refuses %r' % (v,))
+            self._px = v
+
+        def _get_px(self):
+            return getattr(self, '_px', None)
+        for c in (VOrmEager, VOrmLazy, VOrmNoCV):
+            c._set_px, c._get_px = _set_px, _get_px
+            c.px = property(_get_px, _set_px)
         for c in (VOrmEager, VOrmLazy, VOrmNoCV):
             # the instances are FALSY (an application class may define __len__/__bool__, e.g. a container-like row):
             # library code that tests an instance or a weak reference's referent for truth instead of `is None` shows up
@@ -68,7 +81,7 @@ def classes():
         # holds obj.id (joins add no column, no statement and no cascade to the classes)
         for c in _classes:
             for other in _classes:
-                c.sqlmeta.addJoin(MultipleJoin(other.__name__, joinColumn='a', joinMethodName='j' + other.__name__[4:]))
+                c.sqlmeta.addJoin(MultipleJoin(other.__name__, joinColumn='a_c', joinMethodName='j' + other.__name__[4:]))
     return _classes
 
 
@@ -78,25 +91,25 @@ def abstract_sql(q):
     m = re.match(r'INSERT INTO (\w+) \(([^)]*)\)', q)
     if m:
         cols = [c.strip() for c in m.group(2).split(',')]
-        return ['insert', TABLES.index(m.group(1)), sorted(COLS.index(c) for c in cols if c in COLS)]
+        return ['insert', TABLES.index(m.group(1)), sorted(DBCOLS.index(c) for c in cols if c in DBCOLS)]
     m = re.match(r'INSERT INTO (\w+) VALUES \(NULL\)', q)
     if m:
         return ['insert', TABLES.index(m.group(1)), []]
     m = re.match(r'UPDATE (\w+) SET (.*) WHERE id = \((-?\d+)\)$', q)
     if m:
         cols = [p.split('=')[0].strip() for p in m.group(2).split(', ')]
-        return ['update', TABLES.index(m.group(1)), int(m.group(3)), sorted(COLS.index(c) for c in cols)]
+        return ['update', TABLES.index(m.group(1)), int(m.group(3)), sorted(DBCOLS.index(c) for c in cols)]
     m = re.match(r'DELETE FROM (\w+) WHERE id = \((-?\d+)\)$', q)
     if m:
         return ['delete', TABLES.index(m.group(1)), int(m.group(2))]
     m = re.match(r'SELECT ([\w, ]+) FROM (\w+) WHERE \(\((\w+)\.id\) = \((-?\d+)\)\)$', q)
     if m:
         cols = [c.strip() for c in m.group(1).split(',')]
-        return ['selectone', TABLES.index(m.group(2)), int(m.group(4)), [COLS.index(c) for c in cols]]
-    m = re.match(r'SELECT id, a, u, n FROM (\w+) WHERE \(\(\w+\.u\) = \((-?\d+)\)\)$', q)
+        return ['selectone', TABLES.index(m.group(2)), int(m.group(4)), [DBCOLS.index(c) for c in cols]]
+    m = re.match(r'SELECT id, a_c, u_c, n_c FROM (\w+) WHERE \(\(\w+\.u_c\) = \((-?\d+)\)\)$', q)
     if m:
         return ['selectalt', TABLES.index(m.group(1))]
-    m = re.match(r'SELECT id FROM (\w+) WHERE a = \((-?\d+)\)$', q)
+    m = re.match(r'SELECT id FROM (\w+) WHERE a_c = \((-?\d+)\)$', q)
     if m:
         return ['select', TABLES.index(m.group(1))]      # _SO_selectJoin
     m = re.match(r'SELECT \w+\.id, .* FROM (\w+) WHERE', q)
@@ -279,7 +292,7 @@ def run_history(case):
             raw = conn.getConnection()
             cur = raw.cursor()
             if t == 'rawupdate':
-                cur.execute('UPDATE %s SET %s = ? WHERE id = ?' % (TABLES[op[1]], COLS[op[3]]), (op[4], op[2]))
+                cur.execute('UPDATE %s SET %s = ? WHERE id = ?' % (TABLES[op[1]], DBCOLS[op[3]]), (op[4], op[2]))
             else:
                 cur.execute('DELETE FROM %s WHERE id = ?' % TABLES[op[1]], (op[2],))
             cur.close()
@@ -296,7 +309,7 @@ def run_history(case):
         cur = raw.cursor()
         tabs = []
         for t in TABLES:
-            cur.execute('SELECT id, a, u, n FROM %s ORDER BY id' % t)
+            cur.execute('SELECT id, a_c, u_c, n_c FROM %s ORDER BY id' % t)
             tabs.append([[r[0], list(r[1:])] for r in cur.fetchall()])
         cur.close()
         conn.releaseConnection(raw)
@@ -650,6 +663,9 @@ def gen_history(rng, profile, length):
                 kv = [[c, colval(c)] for c in cs]
                 if rng.random() < profile.get('p_unknown_kw', 0.06):
                     kv.insert(rng.randint(0, len(kv)), [3, rng.randint(0, 4)])      # an unknown keyword among the columns
+                if rng.random() < profile.get('p_prop_kw', 0.10):
+                    # a property of the class among the columns; its setter refuses one value in three
+                    kv.insert(rng.randint(0, len(kv)), [4, 'bad' if rng.random() < 0.35 else rng.randint(0, 4)])
                 return ['set', h, kv]
             return [t, h]
         if t == 'unpickle':
@@ -737,6 +753,23 @@ def motif_lazy_expire(rng, h, rows, kinds):
     """assign on a (probably lazy) object, expire it, read, flush, read: the discarded value must not come back"""
     c = rng.choice([0, 2])
     return [['setattr', h, c, rng.randint(0, 4)], ['expire', h], ['read', h, c], ['syncupdate', h], ['read', h, c]]
+
+
+def motif_refused_flush_refetch(rng, h, rows, kinds):
+    """a flush the database refuses (the UNIQUE column set to another row's key), a select that re-fetches the rows, the key
+    corrected, a second flush, reads: nothing queued may get lost, nothing refused may be shown as stored"""
+    c = rng.choice([0, 2])
+    fresh = rng.randint(900, 999)
+    return [['setattr', h, c, rng.randint(5, 9)], ['setattr', h, 1, rng.choice([100, 100, 101, 102])], ['syncupdate', h],
+            ['select', 1, None, None], ['select', rng.choice(kinds), None, None], ['read', h, c],
+            ['setattr', h, 1, fresh], ['syncupdate', h], ['read', h, c], ['read', h, 1]]
+
+
+def motif_expire_assign_reload(rng, h, rows, kinds):
+    """expire, assign one column, read ANOTHER column (which reloads the row), flush, read both"""
+    c, d = rng.sample([0, 1, 2], 2)
+    v = rng.randint(900, 999) if c == 1 else rng.randint(5, 9)
+    return [['expire', h], ['setattr', h, c, v], ['read', h, d], ['read', h, c], ['syncupdate', h], ['read', h, c], ['read', h, d]]
 
 
 def motif_expire_get(rng, h, rows, kinds):
